@@ -100,6 +100,7 @@ let dump_header (h : M.header) =
 let with_inv = ref (try Sys.getenv "EZ_INV" = "1" with Not_found -> false)
 (* the decision predicates of Proofs_Decide.v: present only in the build made from ExtractX.v (lib/build.py swaps this line) *)
 let ls_hook : (M.state -> bool * bool * bool list) option = None
+let cert_hook : (M.n list -> bool * bool list) option = None
 let with_ls = ref (try Sys.getenv "EZ_LS" = "1" with Not_found -> false)
 let dump_all (s : M.state) =
   dump_header s.M.hdr;
@@ -184,6 +185,12 @@ let run_case (lines : string list) =
          (match read_file path with
           | None -> pr "throw ios_failure\n"
           | Some bs -> on_outcome (M.load_x bs) (fun s -> Hashtbl.replace obj k s; pr "ok\n"))
+       | "cert" | "certx" ->   (* does the layout theorem (Proofs_LayoutCert.layout_cert) apply to this file? *)
+         let name = next tk in
+         let path = (if cmd = "cert" then !own_dir else !shared_dir) ^ "/" ^ name in
+         (match read_file path, cert_hook with
+          | Some bs, Some f -> let (a, fl) = f bs in let b x = if x then "1" else "0" in pr "C %s %s\n" (b a) (String.concat "" (List.map b fl))
+          | _, _ -> pr "C - -\n")
        | "save" ->
          let k = tk_int tk in let name = next tk in
          on_outcome (M.save_x (o k)) (fun bs -> write_file (!own_dir ^ "/" ^ name) bs; pr "ok\n")
